@@ -1,8 +1,8 @@
 package scen
 
 import (
-	"os"
 	"fmt"
+	"os"
 	"reflect"
 	"unsafe"
 
